@@ -4,6 +4,7 @@
 import Driver.C03
 import RelicVerif.Spec.CurveX
 import RelicVerif.Gen.Ep2Formulas
+import RelicVerif.Model.Ep2Conv
 
 namespace Driver.C11
 open Driver Relic.Spec.Tower Relic.Spec.CurveX Relic.Model.Formula
@@ -181,6 +182,49 @@ def handle (e : Env) (w : Nat) (op : String) (args : List String) (got : String)
     let m ← pI m
     let p' := if v == "gen" then e.g else p0
     some { model := got, spec := [fmtPoint d (add c (mul c p' k) (mul c q' m))], tags := ["sim." ++ v] }
+  | "e2wb", [len, pack, q] => do
+    -- C07: ep2_write_bin; the model is Model/Ep2Conv.writeBin with the sign rule of ep2_upk (what the property needs for decode ∘ encode = id)
+    let len ← len.toNat?
+    let pt ← (parseRep d q).map (normPt d)
+    let nb := (bitLen d.p + 7) / 8
+    let x : Relic.Model.Ep2Conv.Ctx := { c := c, nb := nb, srt := fun _ => none }
+    let pk := pack != "0"
+    let size := match pt with | none => 1 | some _ => if pk then 2 * nb + 1 else 4 * nb + 1
+    let hex := fun (bs : List Nat) => if bs.isEmpty then "." else String.join (bs.map fun b => natToHexPad b 2)
+    let m := (match Relic.Model.Ep2Conv.writeBin x true len pt pk with
+      | some bs => hex bs
+      | none => "err") ++ " size=" ++ toString size
+    some { model := m, spec := [m], tags := ["e2wb", if pk then "e2wb.pack" else "e2wb.full", if pt == none then "e2wb.inf" else "e2wb.finite"] }
+  | "e2rb", [h] => do
+    -- C07: ep2_read_bin; a decoding is accepted exactly when Model/Ep2Conv.readBin accepts it (the square root is taken from the
+    -- library's answer and verified; that a root exists is decided with the norm), the result is that point, the library's own
+    -- re-encoding in the same format and length reproduces the input, and the result does not depend on the destination's content
+    let bs : List Nat ← if h == "." then some [] else
+      (List.range (h.length / 2)).mapM fun i => parseHexNat ((h.drop (2 * i)).take 2).toString
+    let nb := (bitLen d.p + 7) / 8
+    let cand : Option (List Nat) := match parsePoint d ((got.splitOn " ").headD "") with
+      | some (some (_, y)) => some y
+      | _ => none
+    let srt := fun (v : List Nat) => match cand with
+      | some y => if d.canon (d.sqr y) == d.canon v then some y else none
+      | none => none
+    let x : Relic.Model.Ep2Conv.Ctx := { c := c, nb := nb, srt := srt }
+    let qnr := ((d.levels.headD default).nr).headD 0
+    let isSq := fun (v : List Nat) =>
+      let v := d.canon v
+      let n := (v.getD 0 0 * v.getD 0 0 + (d.p - qnr % d.p) * (v.getD 1 0 * v.getD 1 0 % d.p)) % d.p
+      d.isZero v || legendre d.p n == 1
+    -- a compressed string whose x is valid and whose right-hand side is a square must be accepted
+    let mustAccept : Bool := bs.length == 2 * nb + 1 && (bs.headD 0 == 2 || bs.headD 0 == 3) &&
+      (match Relic.Model.Ep2Conv.elRead x (bs.drop 1) with
+       | some px => isSq (rhs c px)
+       | none => false)
+    let m := match Relic.Model.Ep2Conv.readBin x bs with
+      | some pt => fmtPoint d pt ++ " on=1 re=" ++ h
+      | none => "err"
+    let m := if m == "err" && mustAccept && cand == none then "<the point with this x-coordinate and sign>" else m
+    some { model := m, spec := [m], tags := ["e2rb", if m == "err" then "e2rb.reject" else "e2rb.accept",
+           if bs.length == 2 * nb + 1 then "e2rb.packed" else if bs.length == 4 * nb + 1 then "e2rb.full" else "e2rb.len"] }
   | "e2pt", [_, _] =>
     if got == "none" then some { model := got, spec := [got], tags := ["pt.none"] } else
     match parsePoint d got with
